@@ -201,6 +201,15 @@ def check_forwarding(ctx, fx, cfg):
         if not ctx.require(f is not None, "R17.3", inst + "@" + cfg, "%s not found" % fn_name):
             return None
         fam = [g for g in graph.family(fx, fn_name) if g["kind"] in ("assoc_fn", "fn", "coroutine")]
+        # ... plus synchronous helper methods it calls on its own handle (`self.stop_and_join()`)
+        for g in list(fam):
+            gb0 = ctx.body(fx, g)
+            for _b0, t0 in gb0.normal_calls():
+                h0 = fx.callee_fn(t0)
+                if h0 is None or h0["def"] == callee or h0.get("is_async") or h0["kind"] not in ("fn", "assoc_fn") or h0 in fam:
+                    continue
+                if (h0.get("impl_self") or "") == (f.get("impl_self") or "?") and t0["args"] and all(r.kind in ("arg", "upvar") for r in roots(gb0, t0["args"][0])):
+                    fam.append(h0)
         hits = []
         for g in fam:
             gb = ctx.body(fx, g)
